@@ -176,7 +176,7 @@ def key_of(line, impl, model):
     a = line.split(" ")
     op = a[1]
     if op in ("sup", "nm"):
-        return "superset-unsound" if fields(impl).get("sup") == "1" else "member-semantics"
+        return "member-semantics" if "documented meaning" in (prop(line, impl, model) or "") else "superset-unsound"
     if op == "poll":
         return "broker-" + (impl if impl in ("accept", "reject") else "irregular") + "-" + {"s": "pattern", "l": "legacy", "n": "legacy"}[a[4]]
     if a[5] == "E":
